@@ -70,7 +70,7 @@ func (g *Gen) Token() string {
 	return fmt.Sprintf("zq%dx%s", g.serial, g.letters(g.rng(5, 7)))
 }
 
-var dressings = []string{"ascii", "ascii", "ascii", "space", "unicode", "astral", "dollar", "digits", "escape", "html", "long", "empty", "jsonish", "b64ish", "upper", "pad"}
+var dressings = []string{"ascii", "ascii", "ascii", "space", "unicode", "astral", "dollar", "digits", "escape", "html", "long", "empty", "jsonish", "b64ish", "upper", "pad", "pademail"}
 
 // SensString returns the contents of a sensitive ordinary string.
 func (g *Gen) SensString() string {
@@ -118,6 +118,13 @@ func (g *Gen) Dress(d string) string {
 		return base64.StdEncoding.EncodeToString([]byte(t + t))
 	case "upper":
 		return strings.ToUpper(t)
+	case "pademail":
+		// an address with stray surrounding white space is an ORDINARY string
+		// (not e-mail-shaped) whose exact bytes must survive a decrypt round trip
+		if g.NoEmail {
+			return " " + t
+		}
+		return g.pick(" ", "  ", "\t") + g.Email() + g.pick("", " ", "\n")
 	case "pad":
 		// leading / trailing white space must survive encryption round trips
 		return g.pick(" ", "\t", "", "\n", "\u00a0") + t + g.pick(" ", "  ", "\n", "\t", "\r\n")
@@ -132,6 +139,10 @@ func (g *Gen) Email() string {
 		// (DESIGN §4 C02); the domain stays dotted with an alphabetic TLD.
 		loc := g.pick("o'brien", "first/last=x", "a+tag", "x_y-z", "n!ce", "50%off", "a.b.c", "{curly}", "who?", "c#sharp", "tilde~", "p|pe", "`tick", "car^et", "amp&ersand", "st*r", "do$$ar")
 		return fmt.Sprintf("%s%d@%s-%s.%s.%s", loc, g.serial, g.letters(g.rng(1, 5)), g.letters(2), g.letters(g.rng(2, 6)), g.pick("com", "org", "io", "museum"))
+	}
+	if g.R.Intn(6) == 0 {
+		// upper-case letters in local part and domain are e-mail-shaped too
+		return fmt.Sprintf("U%d%s@%s%s.%s", g.serial, strings.ToUpper(g.letters(g.rng(1, 4))), strings.ToUpper(g.letters(1)), g.letters(g.rng(1, 8)), g.pick("COM", "Org", "io"))
 	}
 	return fmt.Sprintf("u%d%s@%s.%s", g.serial, g.letters(g.rng(1, 6)), g.letters(g.rng(1, 10)), g.pick("com", "org", "io"))
 }
